@@ -93,7 +93,9 @@ class Patches:
     def __init__(self):
         self.urls = []
         self.tcalls = []
+        self.gcalls = []
         self.recording = False
+        self.hook = None
 
     def install(self):
         import mapproxy.client.http as H
@@ -110,6 +112,9 @@ class Patches:
 
         def tb(self_, other, bbox, with_points=16):
             key = (self_.srs_code, other.srs_code, tuple(float(v) for v in bbox))
+            if me.hook is not None and not (self_ == other):
+                h, me.hook = me.hook, None
+                h()      # another request runs "concurrently", at this point of the outer one
             try:
                 r = me.orig_tb(self_, other, bbox, with_points)
                 r = tuple(float(v) for v in r)
@@ -131,10 +136,25 @@ class Patches:
 
         H.HTTPClient.open = fake_open
         self.cls.transform_bbox_to = tb
+        import mapproxy.util.coverage as C
+        self.C = C
+        self.orig_gi, self.orig_gc = C.GeomCoverage.intersects, C.GeomCoverage.contains
+
+        def rec_geom(kind, orig):
+            def f(self_, bbox, srs):
+                res = orig(self_, bbox, srs)
+                if me.recording and len(bbox) == 4:
+                    b = bbox if not (srs != self_.srs) else srs.transform_bbox_to(self_.srs, bbox)
+                    me.gcalls.append((kind, getattr(self_, '_verif_gid', -1), tuple(float(v) for v in b), bool(res)))
+                return res
+            return f
+        C.GeomCoverage.intersects = rec_geom('i', self.orig_gi)
+        C.GeomCoverage.contains = rec_geom('c', self.orig_gc)
 
     def remove(self):
         self.H.HTTPClient.open = self.orig_open
         self.cls.transform_bbox_to = self.orig_tb
+        self.C.GeomCoverage.intersects, self.C.GeomCoverage.contains = self.orig_gi, self.orig_gc
 
 
 # ----------------------------------------------------------------------------- SRS knowledge (read from the real objects)
@@ -204,6 +224,31 @@ def sub_box(rng, box, lo=0.15, hi=0.9):
     return (x0 + ox * w, y0 + oy * h, x0 + (ox + fw) * w, y0 + (oy + fh) * h)
 
 
+def gen_coverage(rng, box, srs, snap):
+    """bbox coverage or a rectilinear polygon coverage (difference / union / intersection of bbox coverages)."""
+    x0, y0, x1, y1 = [snap(v) for v in box]
+    w, h = x1 - x0, y1 - y0
+    kind = rng.choice(['bbox', 'bbox', 'hole', 'corner', 'union', 'intersection'])
+    A = [x0, y0, x1, y1]
+    if kind == 'bbox' or w <= 0 or h <= 0:
+        return {'bbox': A, 'srs': srs}
+    if kind == 'hole':
+        B = [snap(x0 + w * rng.uniform(0.1, 0.3)), snap(y0 + h * rng.uniform(0.1, 0.3)),
+             snap(x0 + w * rng.uniform(0.6, 0.9)), snap(y0 + h * rng.uniform(0.6, 0.9))]
+        return {'difference': [{'bbox': A, 'srs': srs}, {'bbox': B, 'srs': srs}]}
+    if kind == 'corner':
+        # cut the upper right part away, leaving an L shape with the same bounds
+        B = [snap(x0 + w * rng.uniform(0.3, 0.6)), snap(y0 + h * rng.uniform(0.3, 0.6)), snap(x1 + w / 4), snap(y1 + h / 4)]
+        return {'difference': [{'bbox': A, 'srs': srs}, {'bbox': B, 'srs': srs}]}
+    if kind == 'union':
+        P = [x0, y0, snap(x0 + w * 0.4), snap(y0 + h * 0.4)]
+        Q = [snap(x0 + w * 0.6), snap(y0 + h * 0.6), x1, y1]
+        return {'union': [{'bbox': P, 'srs': srs}, {'bbox': Q, 'srs': srs}]}
+    P = [x0, y0, snap(x0 + w * 0.7), snap(y0 + h * 0.7)]
+    Q = [snap(x0 + w * 0.3), snap(y0 + h * 0.3), x1, y1]
+    return {'intersection': [{'bbox': P, 'srs': srs}, {'bbox': Q, 'srs': srs}]}
+
+
 def gen_res_range(rng, conf, grid_res):
     mode = rng.choice(['none', 'none', 'none', 'res', 'res', 'min', 'max', 'scale'])
     if mode == 'none':
@@ -261,7 +306,7 @@ def gen_config(ctx, info, k):
         if rng.random() < 0.65:
             csrs = rng.choice(SRS_CODES)
             box = geo_to(info, csrs, sub_box(rng, GEO_AREA, 0.3, 0.9))
-            s['coverage'] = {'bbox': [float(v) for v in box], 'srs': csrs}
+            s['coverage'] = gen_coverage(rng, [float(v) for v in box], csrs, lat)
         gen_res_range(rng, s, None)
         if rng.random() < 0.7:
             names = rng.sample(DIM_KEYS, rng.randrange(1, 4))
@@ -269,6 +314,36 @@ def gen_config(ctx, info, k):
                 names.append(rng.choice(RESERVED_KEYS))
             s['forward_req_params'] = names
         conf['sources'][name] = s
+        if rng.random() < 0.6:
+            # a second source on the same upstream (requested together they may be combined into one request)
+            import copy
+            t = copy.deepcopy(s)
+            t['req']['layers'] = rng.choice(['rivers', 'c', 'x,y'])
+            if rng.random() < 0.45:
+                what = rng.choice(['coverage', 'coverage', 'res', 'fwd', 'srs', 'url', 'formats', 'nocov'])
+                if what == 'coverage' and 'coverage' in t:
+                    csrs = rng.choice(SRS_CODES)
+                    t['coverage'] = gen_coverage(rng, [float(v) for v in geo_to(info, csrs, sub_box(rng, GEO_AREA, 0.3, 0.9))], csrs, lat)
+                elif what == 'nocov':
+                    t.pop('coverage', None)
+                elif what == 'res':
+                    for key in ('min_res', 'max_res', 'min_scale', 'max_scale'):
+                        t.pop(key, None)
+                    gen_res_range(rng, t, None)
+                elif what == 'fwd':
+                    t['forward_req_params'] = rng.sample(DIM_KEYS, rng.randrange(1, 4))
+                elif what == 'srs':
+                    t['supported_srs'] = rng.sample(SRS_CODES, rng.randrange(1, 4))
+                    old = s.get('supported_srs', [])
+                    if [info.cls[c] for c in old] == [info.cls[c] for c in t['supported_srs']]:
+                        t['supported_srs'] = list(old)     # equal lists spelled differently: not generated
+                        if not old:
+                            t.pop('supported_srs')
+                elif what == 'url':
+                    t['req']['url'] = 'http://other%d.example/service?' % i
+                elif what == 'formats':
+                    t['supported_formats'] = rng.sample(FMT_POOL[:5], rng.randrange(1, 3))
+            conf['sources'][name + 'b'] = t
     nt = rng.randrange(1, 3)
     for i in range(nt):
         gname = 'g%d_%d' % (k, i)
@@ -302,7 +377,7 @@ def gen_config(ctx, info, k):
             else:
                 gb = info.obj[gsrs].transform_bbox_to(info.obj[csrs], g['bbox'])
                 box = tuple(lat(v) for v in sub_box(rng, gb, 0.2, 1.0))
-            s['coverage'] = {'bbox': [float(v) for v in box], 'srs': csrs}
+            s['coverage'] = gen_coverage(rng, [float(v) for v in box], csrs, lat)
         gen_res_range(rng, s, res)
         conf['sources'][name] = s
     conf['layers'] = [{'name': 'l_' + n, 'title': n, 'sources': [n]} for n in conf['sources'] if n.startswith('w')]
@@ -368,15 +443,76 @@ def rr_verdict(thr, bbox, size, latlong):
     return inside, near
 
 
+GEOMS = {}
+
+
+def box_and(a, b):
+    return (max(a[0], b[0]), max(a[1], b[1]), min(a[2], b[2]), min(a[3], b[3]))
+
+
+def cov_norm(sconf):
+    """coverage of a source configuration: None or {'bbox', 'srs', 'shape', 'gid'}; shape None = bbox coverage, else
+    {'pos': [boxes], 'neg': [boxes]} = union(pos) minus union(neg) (independent of shapely)."""
+    c = sconf.get('coverage')
+    if not c:
+        return None
+    if 'bbox' in c:
+        return {'bbox': [float(v) for v in c['bbox']], 'srs': c['srs'], 'shape': None, 'gid': None}
+    kind = [k for k in ('difference', 'union', 'intersection') if k in c][0]
+    parts = c[kind]
+    boxes = [tuple(float(v) for v in x['bbox']) for x in parts]
+    srs = parts[0]['srs']
+    if kind == 'difference':
+        shape = {'pos': [boxes[0]], 'neg': boxes[1:]}
+        bounds = boxes[0]          # the generator only cuts holes / corners that leave the bounds unchanged
+    elif kind == 'union':
+        shape = {'pos': boxes, 'neg': []}
+        bounds = (min(b[0] for b in boxes), min(b[1] for b in boxes), max(b[2] for b in boxes), max(b[3] for b in boxes))
+    else:
+        bounds = boxes[0]
+        for b in boxes[1:]:
+            bounds = box_and(bounds, b)
+        shape = {'pos': [bounds], 'neg': []}
+    key = json.dumps(c, sort_keys=True)
+    gid = GEOMS.setdefault(key, len(GEOMS) + 1)
+    return {'bbox': [float(v) for v in bounds], 'srs': srs, 'shape': shape, 'gid': gid}
+
+
+def cov_clearly_outside(cov, qb):
+    """exact (rectilinear) test that the closed rectangle qb is disjoint from the coverage."""
+    if cov['shape'] is None:
+        return not intersects(cov['bbox'], qb)
+    for pbox in cov['shape']['pos']:
+        r = box_and(pbox, qb)
+        if r[0] > r[2] or r[1] > r[3]:
+            continue
+        if any(n[0] < r[0] and r[2] < n[2] and n[1] < r[1] and r[3] < n[3] for n in cov['shape']['neg']):
+            continue
+        return False
+    return True
+
+
+def gtable_lit(gcalls, kind, scale=S):
+    seen, items = set(), []
+    for k, gid, b, res in gcalls:
+        if k != kind or (gid, b) in seen:
+            continue
+        seen.add((gid, b))
+        if not on_lattice(b, scale):
+            return None
+        items.append('(%d, %s, %s)' % (gid, zb(b, scale), blit(res)))
+    return '[' + '; '.join(items) + ']'
+
+
 def fmt_lit(strs, s, typed):
     return '(mkFmt %d %d %s %d)' % (strs.id(s), strs.id(ext_of(s)), blit(typed), strs.id(mime_of(s)))
 
 
 def cov_lit(info, sconf, scale):
-    c = sconf.get('coverage')
+    c = cov_norm(sconf)
     if not c:
-        return 'None'
-    return '(Some (%s, %s))' % (zb(c['bbox'], scale), info.lit(c['srs']))
+        return 'None None'
+    return '(Some (%s, %s)) %s' % (zb(c['bbox'], scale), info.lit(c['srs']), olit(c['gid']))
 
 
 class WmsSrc:
@@ -386,7 +522,7 @@ class WmsSrc:
         self.supported = list(sconf.get('supported_srs', []))
         self.formats = list(sconf.get('supported_formats', []))
         self.fwd = list(sconf.get('forward_req_params', []))
-        self.cov = sconf.get('coverage')
+        self.cov = cov_norm(sconf)
         imgfmt = sconf['req'].get('format') or params.get('format')
         self.imgfmt = imgfmt
         self.rr_lit, self.thr = rr_lit(sconf, S)
@@ -438,7 +574,17 @@ def gen_wms_queries(ctx, info, ws, n):
             x0, y0, x1, y1 = cq
             w, h = x1 - x0, y1 - y0
             kind = rng.choice(['inside', 'inside', 'overlap', 'overlap', 'contains', 'outside', 'touch', 'equal', 'corner'])
-            if kind == 'inside':
+            if ws.cov['shape'] and ws.cov['shape']['neg'] and rng.random() < 0.35:
+                kind = 'inhole'
+            if kind == 'inhole':
+                nb = ws.cov['shape']['neg'][0]
+                nb = box_and(nb, cb)
+                try:
+                    nq = tuple(info.obj[cs].transform_bbox_to(info.obj[code], nb))
+                except Exception:
+                    nq = cq
+                region = sub_box(rng, nq, 0.1, 0.6)
+            elif kind == 'inside':
                 region = sub_box(rng, cq, 0.05, 0.8)
             elif kind == 'overlap':
                 dx, dy = rng.choice([-1, 0, 1]) * rng.uniform(0.2, 0.9) * w, rng.choice([-1, 0, 1]) * rng.uniform(0.2, 0.9) * h
@@ -489,7 +635,7 @@ def gen_wms_queries(ctx, info, ws, n):
         if rng.random() < 0.75:
             pool = list(DIM_KEYS)
             for name in ws.fwd:
-                pool += [name, name.lower(), name.upper()]
+                pool += [name, name.lower(), name.upper(), 'dim_' + name.lower(), 'DIM_' + name.upper()]
             for key in rng.sample(pool, min(len(pool), rng.randrange(1, 5))):
                 dims[key] = rng.choice(DIM_VALS)
             if rng.random() < 0.15:
@@ -526,7 +672,8 @@ def run_query(P, src, q, info):
     from mapproxy.source import InvalidSourceQuery
     fmt = ImageFormat(q['format']) if q['typed'] else q['format']
     mq = MapQuery(q['bbox'], q['size'], info.obj[q['srs']], fmt, dimensions=dict(q['dims']))
-    P.urls, P.tcalls = [], []
+    saved = (P.urls, P.tcalls, P.gcalls, P.recording)
+    P.urls, P.tcalls, P.gcalls = [], [], []
     P.recording = True
     try:
         try:
@@ -548,9 +695,57 @@ def run_query(P, src, q, info):
                    'align' if m.startswith('BBOX does not align') else 'invalid:' + m[:40])
         except Exception as e:  # noqa
             res = ('err', type(e).__name__)
+        out = (res[0], res[1], list(P.urls), list(P.tcalls), list(P.gcalls))
     finally:
-        P.recording = False
-    return res[0], res[1], list(P.urls), list(P.tcalls)
+        P.urls, P.tcalls, P.gcalls, P.recording = saved
+    return out
+
+
+def run_pair(P, sa, sb, q, info):
+    """service.wms.combined_layers([a, b], query), then get_map of every layer (fresh query objects)."""
+    from mapproxy.layer import MapQuery, BlankImage
+    from mapproxy.image.opts import ImageFormat
+    from mapproxy.srs import TransformationError
+    from mapproxy.service.wms import combined_layers
+
+    def mk():
+        fmt = ImageFormat(q['format']) if q['typed'] else q['format']
+        return MapQuery(q['bbox'], q['size'], info.obj[q['srs']], fmt, dimensions=dict(q['dims']))
+    saved = (P.urls, P.tcalls, P.gcalls, P.recording)
+    P.tcalls, P.gcalls = [], []
+    P.recording = True
+    outs = []
+    try:
+        try:
+            layers = combined_layers([sa, sb], mk())
+        except Exception:
+            return None
+        for layer in layers:
+            P.urls = []
+            try:
+                layer.get_map(mk())
+                res = ('returned', None)
+            except Stop:
+                res = ('request', None)
+            except BlankImage:
+                res = ('blank', None)
+            except TransformationError:
+                res = ('err', 'transform')
+            except Exception as e:  # noqa
+                res = ('err', type(e).__name__)
+            outs.append((res[0], res[1], list(P.urls)))
+        tcalls, gcalls = list(P.tcalls), list(P.gcalls)
+    finally:
+        P.urls, P.tcalls, P.gcalls, P.recording = saved
+    tmpl_ab = None
+    if len(layers) == 1:
+        t = layers[0].client.request_template
+        tmpl_ab = [(key.lower(), list(values)) for key, values in t.params.params.iteritems()]
+    static_ok = (sa.client.request_template.url == sb.client.request_template.url and sa.opacity is None and
+                 sb.opacity is None and sa.transparent_color == sb.transparent_color and
+                 sa.transparent_color_tolerance == sb.transparent_color_tolerance and
+                 sb.image_opts.transparent is not False)
+    return len(layers), outs, tcalls, gcalls, tmpl_ab, static_ok
 
 
 def parse_url(url):
@@ -618,9 +813,9 @@ def wms_oracle(ctx, info, ws, q, kind, urls, rep):
                 qb = q['bbox'] if info.same(q['srs'], cs) else info.obj[q['srs']].transform_bbox_to(info.obj[cs], q['bbox'])
             except Exception:
                 qb = None
-            if qb is not None and not intersects(ws.cov['bbox'], qb):
+            if qb is not None and cov_clearly_outside(ws.cov, qb):
                 ctx.fail('wms-contacted-outside-coverage', 'query bbox %r (%s) does not intersect the coverage %r (%s)'
-                         % (q['bbox'], q['srs'], ws.cov['bbox'], cs), rep)
+                         % (q['bbox'], q['srs'], ws.cov['shape'] or ws.cov['bbox'], cs), rep)
     for url, data in urls:
         sp, pairs = parse_url(url)
         pd = {}
@@ -735,7 +930,7 @@ def gen_tile_queries(ctx, info, ts, n):
         nx, ny = gc.grid_size(l)
         x = rng.choice([0, 0, nx - 1, nx, -1, rng.randrange(0, nx), rng.randrange(0, nx)])
         y = rng.choice([0, 0, ny - 1, ny, -1, rng.randrange(0, ny), rng.randrange(0, ny)])
-        cov = ts['sconf'].get('coverage')
+        cov = ts['cov']
         if cov and info.same(cov['srs'], ts['srs']) and rng.random() < 0.6:
             cb = cov['bbox']
             fx, fy = gc.tile_pos(rng.uniform(cb[0], cb[2]), rng.uniform(cb[1], cb[3]), l)
@@ -799,18 +994,65 @@ def tile_oracle(ctx, info, ts, q, kind, urls, rep):
             if not inside and not near:
                 ctx.fail('tile-contacted-outside-res-range', 'tile source with range %r asked at resolution %r'
                          % (rr_values(sconf), [float(v) for v in exact_res(q['bbox'], q['size'], False)]), rep)
-        cov = sconf.get('coverage')
+        cov = ts['cov']
         if cov:
             cs = cov['srs']
             try:
                 qb = q['bbox'] if info.same(q['srs'], cs) else info.obj[q['srs']].transform_bbox_to(info.obj[cs], q['bbox'])
             except Exception:
                 qb = None
-            if qb is not None and not intersects(cov['bbox'], qb):
-                ctx.fail('tile-contacted-outside-coverage', 'query bbox %r does not intersect coverage %r' % (q['bbox'], cov['bbox']), rep)
+            if qb is not None and cov_clearly_outside(cov, qb):
+                ctx.fail('tile-contacted-outside-coverage', 'query bbox %r does not intersect coverage %r'
+                         % (q['bbox'], cov['shape'] or cov['bbox']), rep)
 
 
 # ----------------------------------------------------------------------------- corpus
+
+def wms_term(ctx, info, strs, ws, q, kind, detail, urls, tcalls, gcalls, skipped):
+    """Gallina pieces (T table, GI table, GC table, query, observation) of one get_map call, or None when skipped."""
+    sens = False
+    if ws.thr is not None and rr_verdict(ws.thr, q['bbox'], q['size'], info.latlong[q['srs']])[1]:
+        sens = True
+    for key, r in tcalls:
+        if r is None or key[0] == key[1]:
+            continue
+        w, h = Fraction(r[2]) - Fraction(r[0]), Fraction(r[3]) - Fraction(r[1])
+        if w <= 0 or h <= 0:
+            sens = True
+            continue
+        dw, dh = q['size']
+        for v in (dw * h / w + Fraction(1, 2), dh * w / h + Fraction(1, 2)):
+            if abs(v - round(v)) < Fraction(1, 10 ** 9):
+                sens = True
+        a, b = w * dh, h * dw
+        if a != b and abs(a - b) <= max(a, b) / 10 ** 12:
+            sens = True
+    if sens:
+        skipped['float_sensitive'] += 1
+        return None
+    tt = ttable_lit(strs, tcalls)
+    gi = gtable_lit(gcalls, 'i')
+    gc_ = gtable_lit(gcalls, 'c')
+    if tt is None or gi is None or gc_ is None:
+        skipped['off_lattice'] += 1
+        return None
+    ql = query_lit(info, strs, q)   # interns the strings of the query before the URL is read
+    return tt, gi, gc_, ql, wms_obs_lit(strs, kind, detail, urls, skipped)
+
+
+def wms_obs_lit(strs, kind, detail, urls, skipped):
+    if kind == 'blank':
+        return 'OBlank'
+    if kind == 'request':
+        if len(urls) != 1 or urls[0][1] is not None:
+            return 'OErr (-5)'
+        pl = obs_params_lit(strs, parse_url(urls[0][0])[1])
+        if pl is None:
+            skipped['dup_keys'] += 1
+            return 'OErr (-6)'
+        return 'OUrl %s' % pl
+    return 'OErr %s' % zlit({'transform': 1, 'ValueError': 2}.get(detail, -9))
+
 
 def load_corpus():
     d = os.path.join(VERIF, 'corpus', 'C17')
@@ -846,6 +1088,7 @@ def _run(ctx, P, yaml, GridCase):
     kn, kd = DEG_C.numerator, DEG_C.denominator
     wms_defs, wms_cases, wms_desc = [], [], []
     tile_defs, tile_cases, tile_desc = [], [], []
+    pair_cases, pair_desc = [], []
     skipped = {'float_sensitive': 0, 'off_lattice': 0, 'dup_keys': 0}
 
     corpus = load_corpus()
@@ -866,6 +1109,7 @@ def _run(ctx, P, yaml, GridCase):
         except Exception as e:  # noqa
             ctx.problem('harness', 'generated configuration %d rejected by the loader: %r' % (ci, e), conf)
             continue
+        built_wms = {}
         for name in sorted(conf['sources']):
             sconf = conf['sources'][name]
             if fixed_params is not None:
@@ -880,6 +1124,13 @@ def _run(ctx, P, yaml, GridCase):
                 ctx.problem('harness', 'source %s could not be built: %r' % (name, e), sconf)
                 continue
             uname = 'c%d_%s' % (ci, name)
+            cn = cov_norm(sconf)
+            if cn:
+                if cn['gid'] is not None:
+                    src.coverage._verif_gid = cn['gid']
+                if [float(v) for v in src.coverage.bbox] != cn['bbox'] or src.coverage.srs.srs_code != cn['srs'].upper() or \
+                        (cn['shape'] is None) != (src.coverage.geom is None):
+                    ctx.problem('correspondence', 'loader built coverage %r from configuration %r' % (src.coverage, sconf['coverage']), sconf)
             if sconf['type'] == 'wms':
                 ws = WmsSrc(uname, sconf, conf, info, strs, src, params)
                 # loader cross-check: what the built object holds is what the YAML says
@@ -893,14 +1144,19 @@ def _run(ctx, P, yaml, GridCase):
                     queries = [dict(q, bbox=tuple(q['bbox']), size=tuple(q['size'])) for q in fixed_queries.get(name, [])]
                 else:
                     queries = gen_wms_queries(ctx, info, ws, nq_w)
-                for q in queries:
-                    kind, detail, urls, tcalls = run_query(P, src, q, info)
+                def one(q, tag=''):
+                    r = run_query(P, src, q, info)
+                    finish(q, r, tag)
+
+                def finish(q, r, tag=''):
+                    kind, detail, urls, tcalls, gcalls = r
                     rep = {'source': sconf, 'preferred_src_proj': ws.pref, 'source_params': params, 'query': q,
-                           'outcome': kind, 'detail': detail, 'urls': [u for u, _ in urls]}
-                    nontrivial = True
-                    ctx.case(('wms', json.dumps(sconf, sort_keys=True), json.dumps(ws.pref, sort_keys=True), repr(sorted(q.items()))),
-                             nontrivial, rep if (ctx.evaluations % 97 == 0) else None)
+                           'outcome': kind, 'detail': detail, 'urls': [u for u, _ in urls], 'stream': tag or 'single'}
+                    ctx.case(('wms', tag, json.dumps(sconf, sort_keys=True), json.dumps(ws.pref, sort_keys=True), repr(sorted(q.items()))),
+                             True, rep if (ctx.evaluations % 97 == 0) else None)
                     ctx.count('wms:outcome=' + kind + (':' + str(detail) if detail else ''))
+                    if ws.cov and ws.cov['shape']:
+                        ctx.count('wms:polygon-coverage:' + kind)
                     if urls:
                         try:
                             u_srs = dict((k.lower(), v) for k, v in parse_url(urls[0][0])[1]).get('srs')
@@ -909,58 +1165,41 @@ def _run(ctx, P, yaml, GridCase):
                         ctx.count('wms:path=' + ('direct' if u_srs == q['srs'] else 'alias-or-transformed'))
                     if kind == 'returned':
                         ctx.fail('wms-returned-without-request', 'get_map returned without a request or BlankImage', rep)
-                        continue
+                        return
                     wms_oracle(ctx, info, ws, q, kind, urls, rep)
-                    # ---- correspondence term
-                    sens = False
-                    if ws.thr is not None:
-                        for bb, sz, ll in [(q['bbox'], q['size'], info.latlong[q['srs']])]:
-                            if rr_verdict(ws.thr, bb, sz, ll)[1]:
-                                sens = True
-                    for key, r in tcalls:
-                        if r is None or key[0] == key[1]:
-                            continue
-                        w, h = Fraction(r[2]) - Fraction(r[0]), Fraction(r[3]) - Fraction(r[1])
-                        if w <= 0 or h <= 0:
-                            sens = True
-                            continue
-                        dw, dh = q['size']
-                        for v in (dw * h / w + Fraction(1, 2), dh * w / h + Fraction(1, 2)):
-                            if abs(v - round(v)) < Fraction(1, 10 ** 9):
-                                sens = True
-                        a, b = w * dh, h * dw
-                        if a != b and abs(a - b) <= max(a, b) / 10 ** 12:
-                            sens = True
-                    if sens:
-                        skipped['float_sensitive'] += 1
-                        continue
-                    tt = ttable_lit(strs, tcalls)
-                    if tt is None:
-                        skipped['off_lattice'] += 1
-                        continue
-                    ql = query_lit(info, strs, q)   # interns the strings of the query before the URL is read
-                    if kind == 'blank':
-                        obs = 'OBlank'
-                    elif kind == 'request':
-                        if len(urls) != 1 or urls[0][1] is not None:
-                            obs = 'OErr (-5)'
-                        else:
-                            pl = obs_params_lit(strs, parse_url(urls[0][0])[1])
-                            if pl is None:
-                                skipped['dup_keys'] += 1
-                                obs = 'OErr (-6)'
-                            else:
-                                obs = 'OUrl %s' % pl
-                    else:
-                        obs = 'OErr %s' % zlit({'transform': 1, 'ValueError': 2}.get(detail, -9))
-                    wms_cases.append('(%s, %s_t, %s_f, %s, %s, %s)' % (uname, uname, uname, tt, ql, obs))
-                    wms_desc.append(rep)
+                    t = wms_term(ctx, info, strs, ws, q, kind, detail, urls, tcalls, gcalls, skipped)
+                    if t is not None:
+                        tt, gi, gc_, ql, obs = t
+                        wms_cases.append('(%s, %s_t, %s_f, %s, %s, %s, %s, %s)' % (uname, uname, uname, tt, gi, gc_, ql, obs))
+                        wms_desc.append(rep)
+
+                for q in queries:
+                    one(q)
+                built_wms[name] = (ws, src, uname, queries)
+                # ---- interleaved requests: a second request runs while the first one is inside a transformation;
+                # get_map must be a function of (source, query) only (no state shared between requests)
+                if ws.cov and fixed_queries is None:
+                    cand = [q for q in queries if not info.same(q['srs'], ws.cov['srs'])]
+                    for _ in range(2):
+                        if len(cand) < 2:
+                            break
+                        qb_, qa_ = rng.sample(cand, 2)
+                        inner = []
+                        P.hook = lambda: inner.append(run_query(P, src, qa_, info))
+                        r_outer = run_query(P, src, qb_, info)
+                        P.hook = None
+                        finish(qb_, r_outer, 'interleaved-outer')
+                        for r in inner:
+                            finish(qa_, r, 'interleaved-inner')
+                        one(qa_, 'after-interleaving')
+                        one(qb_, 'after-interleaving')
+                        ctx.count('wms:interleaved=' + ('yes' if inner else 'no transformation reached'))
             else:
                 g = src.grid
                 gconf = conf['grids'][sconf['grid']]
                 gc = GridCase(uname + '_g', g, extra_den=S)
                 thr_lit, thr = rr_lit(sconf, gc.S)
-                ts = {'gc': gc, 'srs': gconf['srs'], 'sconf': sconf, 'thr': thr}
+                ts = {'gc': gc, 'srs': gconf['srs'], 'sconf': sconf, 'thr': thr, 'cov': cov_norm(sconf)}
                 if [float(v) for v in g.bbox] != [float(v) for v in gconf['bbox']] or \
                         [float(r) for r in g.resolutions] != [float(r) for r in gconf['res']] or \
                         tuple(g.tile_size) != tuple(gconf['tile_size']) or \
@@ -974,7 +1213,7 @@ def _run(ctx, P, yaml, GridCase):
                 else:
                     queries = gen_tile_queries(ctx, info, ts, nq_t)
                 for q in queries:
-                    kind, detail, urls, tcalls = run_query(P, src, q, info)
+                    kind, detail, urls, tcalls, gcalls = run_query(P, src, q, info)
                     rep = {'source': sconf, 'grid': gconf, 'query': q, 'outcome': kind, 'detail': detail,
                            'urls': [u for u, _ in urls]}
                     ctx.case(('tile', json.dumps(sconf, sort_keys=True), json.dumps(gconf, sort_keys=True), repr(sorted(q.items()))),
@@ -993,7 +1232,10 @@ def _run(ctx, P, yaml, GridCase):
                         skipped['float_sensitive'] += 1
                         continue
                     tt = ttable_lit(strs, tcalls, gc.S)
-                    if tt is None or not gc.can_scale(*q['bbox']):
+                    gi = gtable_lit(gcalls, 'i', gc.S)
+                    if ts['cov'] and ts['cov']['shape']:
+                        ctx.count('tile:polygon-coverage:' + kind)
+                    if tt is None or gi is None or not gc.can_scale(*q['bbox']):
                         skipped['off_lattice'] += 1
                         continue
                     if kind == 'blank':
@@ -1003,19 +1245,74 @@ def _run(ctx, P, yaml, GridCase):
                         obs = 'TOTile (%s, %s, %s)' % (zlit(m.group(2)), zlit(m.group(3)), zlit(m.group(1))) if m else 'TOErr (-5)'
                     else:
                         obs = 'TOErr %s' % zlit(TILE_ERR.get(detail, -9))
-                    tile_cases.append('(%s, %s, %s, %s)' % (uname, tt, query_lit(info, strs, q, gc.S), obs))
+                    tile_cases.append('(%s, %s, %s, %s, %s)' % (uname, tt, gi, query_lit(info, strs, q, gc.S), obs))
                     tile_desc.append(rep)
+
+        # ---- sources requested together: service.wms.combined_layers + get_map of every resulting layer
+        for name in sorted(built_wms):
+            if name + 'b' not in built_wms:
+                continue
+            wa, sa, ua, qs_a = built_wms[name]
+            wb, sb, ub, qs_b = built_wms[name + 'b']
+            for q in (qs_a[:ctx.n(5, 8)] + qs_b[:ctx.n(3, 5)]):
+                pr = run_pair(P, sa, sb, q, info)
+                if pr is None:
+                    continue
+                nlayers, outs, tcalls, gcalls, tmpl_ab, static_ok = pr
+                if tmpl_ab is not None:
+                    tmpl_ab = llit(tmpl_ab, lambda kv: '(%d, %s)' % (strs.id(kv[0]), llit(kv[1], lambda v: 'VStr %d' % strs.id(v))))
+                rep = {'sources': [wa.sconf, wb.sconf], 'preferred_src_proj': wa.pref, 'query': q, 'combined': nlayers == 1,
+                       'outcomes': [(k, d, [u for u, _ in us]) for k, d, us in outs], 'stream': 'pair'}
+                ctx.case(('pair', json.dumps(wa.sconf, sort_keys=True), json.dumps(wb.sconf, sort_keys=True), repr(sorted(q.items()))),
+                         True, rep if (ctx.evaluations % 97 == 0) else None)
+                ctx.count('pair:' + ('combined' if nlayers == 1 else 'separate') + ':' + '+'.join(k for k, _, _ in outs))
+                if nlayers == 1:
+                    kind, detail, urls = outs[0]
+                    # the combined request must honour the configuration of both sources
+                    for w_ in (wa, wb):
+                        wms_oracle(ctx, info, w_, q, kind, urls, rep)
+                    for u, _ in urls:
+                        lay = dict((k.lower(), v) for k, v in parse_url(u)[1]).get('layers')
+                        if lay != wa.sconf['req']['layers'] + ',' + wb.sconf['req']['layers']:
+                            ctx.fail('pair-layers', 'combined request asks for layers %r' % lay, rep)
+                else:
+                    for w_, (kind, detail, urls) in zip((wa, wb), outs):
+                        wms_oracle(ctx, info, w_, q, kind, urls, rep)
+                terms = []
+                for w_, (kind, detail, urls) in zip((wa, wb), outs):
+                    t = wms_term(ctx, info, strs, w_, q, kind, detail, urls, tcalls, gcalls, skipped)
+                    if t is None:
+                        terms = None
+                        break
+                    terms.append(t)
+                # the resolution gates of both sources are evaluated by _is_compatible
+                for w_ in (wa, wb):
+                    if w_.thr is not None and rr_verdict(w_.thr, q['bbox'], q['size'], info.latlong[q['srs']])[1]:
+                        terms = None
+                if not terms:
+                    continue
+                tt, gi, gc_, ql, _ = terms[0]
+                pair_cases.append('(%s, %s, %s, %s_t, %s_t, %s, %s_f, %s, %s, %s, %s, [%s])' % (
+                    blit(static_ok), ua, ub, ua, ub, tmpl_ab if tmpl_ab else ua + '_t', ua, tt, gi, gc_, ql,
+                    '; '.join(t[4] for t in terms)))
+                pair_desc.append(rep)
 
     for k, v in skipped.items():
         ctx.distribution['skipped_' + k] = v
     ctx.distribution['corpus_configurations'] = ncorpus
     kdefs = 'Definition KN : Z := %s.\nDefinition KD : Z := %s.\n' % (zlit(kn), zlit(kd))
     ctx.corr_check('wms_get_map', 'Grid Upstream',
-                   'wms_source * params * list (Z * Z) * ttable * query * wms_obs', wms_cases,
-                   "fun c => let '(src, tmpl, fixed, tb, q, obs) := c in "
-                   "wms_obs_eqb tmpl fixed (wms_get_map (T_of tb) KN KD src q) obs",
+                   'wms_source * params * list (Z * Z) * ttable * gtable * gtable * query * wms_obs', wms_cases,
+                   "fun c => let '(src, tmpl, fixed, tb, gi, gc, q, obs) := c in "
+                   "wms_obs_eqb tmpl fixed (wms_get_map (T_of tb) KN KD (glookup gi) (glookup gc) src q) obs",
                    lambda i: wms_desc[i], defs=kdefs + '\n'.join(wms_defs), shard=300)
+    ctx.corr_check('render_pair', 'Grid Upstream',
+                   'bool * wms_source * wms_source * params * params * params * list (Z * Z) * ttable * gtable * gtable * query * list wms_obs',
+                   pair_cases,
+                   "fun c => let '(ok, a, b, ta, tb_, tab, fixed, tt_, gi, gc, q, obs) := c in "
+                   "pair_obs_eqb ta tb_ tab fixed (render_pair (T_of tt_) KN KD (glookup gi) (glookup gc) ok a b q) obs",
+                   lambda i: pair_desc[i], defs=kdefs + '\n'.join(wms_defs), shard=300)
     ctx.corr_check('tiled_get_map', 'Grid Upstream',
-                   'tile_source * ttable * query * tile_obs', tile_cases,
-                   "fun c => let '(ts, tb, q, obs) := c in tile_obs_eqb (tiled_get_map (T_of tb) KN KD ts q) obs",
+                   'tile_source * ttable * gtable * query * tile_obs', tile_cases,
+                   "fun c => let '(ts, tb, gi, q, obs) := c in tile_obs_eqb (tiled_get_map (T_of tb) KN KD (glookup gi) ts q) obs",
                    lambda i: tile_desc[i], defs=kdefs + '\n'.join(tile_defs), shard=300)
